@@ -23,7 +23,7 @@ func (t Tri) Contains(p P) bool {
 	e := []P{t.A, t.B, t.C}
 	for i := range 3 {
 		or := orientation(e[i%3], e[(i+1)%3], p)
-		if or == cln {
+		if or == cln || collinear(e[i%3], e[(i+1)%3], p) {
 			q, r := e[i%3], e[(i+1)%3]
 			return p.X >= min(q.X, r.X) && p.X <= max(q.X, r.X) &&
 				p.Y >= min(q.Y, r.Y) && p.Y <= max(q.Y, r.Y)
